@@ -167,4 +167,25 @@ example :
     s.best.map (·.id) = [3, 0] ∧ chainKeys T s.best = [5, 6] ∧ s.txIdx 5 = some 1 ∧
     s.errLog 2 = some .txDup ∧ s.errLog 4 = some .txDup ∧ s.errLog 5 = some .txDup := by decide
 
+/-- **produced_block_clean** (the producer side of the property): whatever body the node's own
+block production is offered (`PreExecBlock` with errReturn = false on the tip), in ANY node state,
+the transactions it keeps carry pairwise different hashes, none of them is reported by the
+duplicate lookup (transaction index / TxHeight window cache), and each is unexpired at the
+block's height and time and passes the fee and chain-id checks. -/
+theorem produced_block_clean (T : Table) (s : State) (b : Blk) :
+    ((produce T s b).map (fun t => (T t).hash)).Nodup ∧
+    ∀ t ∈ produce T s b, hasTx T s t = false ∧
+      isExpire s.hi s.lo (T t) b.height b.time = false ∧ (T t).feeOk = true ∧ (T t).chainOk = true := by
+  have h := produce_spec T s b
+  exact ⟨h.1, fun t ht => ⟨(h.2 t ht).2.1, checkTx_true (h.2 t ht).2.2⟩⟩
+
+/-- Non-vacuity: body [5, 5', 6 (expired), 7] on a chain that already holds hash 5: only 7 is kept. -/
+example :
+    let T : Table := fun i => { hash := if i = 50 then 5 else i, sigOk := true,
+                                exp := if i = 6 then .height 2 else .none, feeOk := true, chainOk := true }
+    let g : Blk := { id := 0, parent := 0, height := 0, diff := 1, time := 0, txs := [] }
+    let b1 : Blk := { id := 1, parent := 0, height := 1, diff := 1, time := 1, txs := [5] }
+    let b2 : Blk := { id := 2, parent := 1, height := 2, diff := 1, time := 2, txs := [5, 50, 6, 7, 7] }
+    produce T (node T 0 12 600 200 false g [.deliver b1 .peer]) b2 = [7] := by decide
+
 end C28
